@@ -322,3 +322,58 @@ func strconvQuote(s string) string {
 	}
 	return fmt.Sprintf("%q", s)
 }
+
+// smallArgCalls lists calls of every exported non-setter method whose one or two parameters are ints or bools and which
+// returns something (Next(n), Next(n, onlyWorkday), GetYun(gender), ...BySect(sect), GetDaYunBy(n), ...) with small
+// argument values. Such methods are read-only with respect to their receiver.
+func smallArgCalls(v reflect.Value) (names []string, calls []func()) {
+	t := v.Type()
+	intT, boolT := reflect.TypeOf(0), reflect.TypeOf(true)
+	for i := 0; i < t.NumMethod(); i++ {
+		m := t.Method(i)
+		n := m.Type.NumIn() - 1
+		if n < 1 || n > 2 || m.Type.NumOut() < 1 || strings.HasPrefix(m.Name, "Set") {
+			continue
+		}
+		argSets := [][]reflect.Value{{}}
+		ok := true
+		for k := 1; k <= n; k++ {
+			var vals []reflect.Value
+			switch m.Type.In(k) {
+			case intT:
+				vals = []reflect.Value{reflect.ValueOf(1), reflect.ValueOf(3), reflect.ValueOf(-2), reflect.ValueOf(0)}
+			case boolT:
+				vals = []reflect.Value{reflect.ValueOf(true), reflect.ValueOf(false)}
+			default:
+				ok = false
+			}
+			var next [][]reflect.Value
+			for _, a := range argSets {
+				for _, x := range vals {
+					next = append(next, append(append([]reflect.Value{}, a...), x))
+				}
+			}
+			argSets = next
+		}
+		if !ok {
+			continue
+		}
+		mv := v.Method(i)
+		for _, args := range argSets {
+			args := args
+			desc := m.Name + "("
+			for k, a := range args {
+				if k > 0 {
+					desc += ","
+				}
+				desc += fmt.Sprint(a.Interface())
+			}
+			names = append(names, desc+")")
+			calls = append(calls, func() {
+				defer func() { recover() }()
+				mv.Call(args)
+			})
+		}
+	}
+	return
+}
